@@ -111,10 +111,11 @@ def runOps (k : Sink) : List Op → WState → SinkOutcome
 /-- the sink of a `Vec<u8>` -/
 def idealSink : Sink := ⟨fun _ len => .acc len, false⟩
 
-/-- a finite script: the `i`-th call is answered by `script[i]`, later calls are accepted whole -/
-def scriptSink (script : List Resp) (flushFails : Bool) : Sink :=
-  ⟨fun i len => match script[i]? with
-    | some r => r
+/-- a sparse script: call `i` is answered by the entry `(i, r)` if there is one (first wins), every
+other call is accepted whole -/
+def scriptSink (script : List (Nat × Resp)) (flushFails : Bool) : Sink :=
+  ⟨fun i len => match script.find? (fun e => e.1 == i) with
+    | some e => e.2
     | none => .acc len, flushFails⟩
 
 /-- `FsmWriter::write(fsm); close()` against a sink -/
